@@ -44,6 +44,8 @@ FeatureChecker::FeatureChecker(Document& document)
 bool FeatureChecker::visitTemplateBefore(template_t& templ)
 {
     // Only check features if template is actually used in the system
+    if (templ.is_instantiated)
+        visitFrame(templ.frame);  // channels declared locally (or taken as parameters) by a used template
     return templ.is_instantiated;
 }
 
@@ -168,6 +170,8 @@ void FeatureChecker::visitFrame(const frame_t& frame)
 {
     for (size_t i = 0; i < frame.get_size(); ++i) {
         type_t t = frame.get_symbol(i).get_type();
+        while (t.is_array())  // arrays of channels declare channels too
+            t = t.get_sub();
         if (t.is_channel() && !t.is(Constants::BROADCAST))
             supported_methods.stochastic = false;
     }
